@@ -4,6 +4,7 @@ mod codec;
 mod langs;
 mod rng;
 mod suites;
+mod terms;
 mod util;
 
 use rng::Rng;
@@ -112,6 +113,7 @@ fn main() {
             "shape" => suites::shape::replay(&body),
             "parse" => suites::parse::replay(&body),
             "grp" => suites::group::replay(&body),
+            "eg" => suites::eg::replay(&body),
             _ => panic!("unknown suite"),
         };
         ctx.emit(c);
@@ -122,6 +124,7 @@ fn main() {
             "shape" => suites::shape::run(&mut ctx),
             "parse" => suites::parse::run(&mut ctx),
             "grp" => suites::group::run(&mut ctx),
+            "eg" => suites::eg::run(&mut ctx),
             _ => panic!("unknown suite"),
         }
     }
